@@ -91,8 +91,14 @@ def run_in_tree(w, tree, rr, plan=None, sched=None, timeout=120, scans_override=
         rr.presented_raw.append(raw)
         spec.append("torrent " + raw.hex())
     scans = scans_override if scans_override is not None else [os.path.join(btree, *s) for s in w.scans]
-    export = export_override if export_override is not None else os.path.join(btree, *w.export)
+    export = export_override if export_override is not None else os.path.join(btree, *(getattr(w, "export_arg", None) or w.export))
     rr.scans, rr.export = scans, export
+    rr.rewrites = []
+    for arg in [export] + list(scans):
+        if arg.startswith(b"/") and b".." in arg.split(b"/") and os.path.isdir(arg):
+            real = os.path.realpath(arg)
+            if abs_comps(real) != abs_comps(arg):
+                rr.rewrites.append((abs_comps(arg), abs_comps(real)))
     for s in scans:
         spec.append("scan " + s.hex())
     spec.append("export " + export.hex())
@@ -171,6 +177,16 @@ def canonical_events(rr):
     queues = []
     seq = 0
     cur_seek = {}
+    rewrites = getattr(rr, "rewrites", [])
+
+    def pcomps(hexpath):
+        # a directory argument spelled through '..' / a symbolic link: the paths the tool builds from it are recorded
+        # under the location the kernel resolves the argument to (a path built any OTHER way stays as it is)
+        comps = abs_comps(bytes.fromhex(hexpath))
+        for raw, real in rewrites:
+            if comps[:len(raw)] == raw:
+                return real + comps[len(raw):]
+        return comps
 
     def emit(rec, ev):
         nonlocal seq
@@ -344,9 +360,14 @@ def validator_input(case_id, rr, ce):
     out = ["case %s" % case_id]
     for p, ok in zip(rr.presented_raw, rr.loaded or [True] * len(rr.presented_raw)):
         out.append("torrent " + p.hex())
+    def resolved(p):
+        for raw, real in getattr(rr, "rewrites", []):
+            if abs_comps(p) == raw:
+                return b"/" + b"/".join(real)
+        return p
     for s in rr.scans:
-        out.append(upath_line("scan", s))
-    out.append(upath_line("export", rr.export))
+        out.append(upath_line("scan", resolved(s)))
+    out.append(upath_line("export", resolved(rr.export)))
     out.append("resize %d" % (1 if rr.resize else 0))
     base = abs_comps(os.fsencode(rr.tree))
     for i in range(1, len(base) + 1):
